@@ -494,6 +494,15 @@ func (el *EventList) Verify(acc *Accumulator) error {
 	if err = events[count-1].hashEquals(acc.EventHash); err != nil {
 		return errors.WrapPrefix(err, "update chain has wrong hash", 0)
 	}
+	// The parent of the first event is not part of the list, so its parent hash cannot be compared
+	// with anything. It must at least be a hash: an event's own hash covers the concatenation of
+	// index, parent hash and revoked value without length framing, so that bytes moved from the front
+	// of the revoked value to the end of the parent hash would leave the whole chain intact while
+	// changing the value the receiver acts on. (Checked on every call: lists that were received in
+	// compressed form are marked as verified by the decoder, which takes this hash from the wire.)
+	if _, err = events[0].ParentHash.Algorithm(); err != nil {
+		return errors.WrapPrefix(err, "first event of the chain has a malformed parent hash", 0)
+	}
 	if el.verified {
 		if el.validationErr != nil {
 			return el.validationErr
